@@ -169,7 +169,10 @@ type wLeaf struct {
 	W    int    `json:"w,omitempty"`
 	P    [2]int `json:"p,omitempty"`
 	PT   string `json:"pt,omitempty"`
-	E    wEdges `json:"e"` // its own padding; Border = the image's own border (narrows the default width on both sides)
+	// imagew: where the explicit width is written — "" on the element, "class" in an mj-class the image names, "tag" as the
+	// mj-image default of mj-attributes.  The Model sees the same width either way.
+	Src string `json:"src,omitempty"`
+	E   wEdges `json:"e"` // its own padding; Border = the image's own border (narrows the default width on both sides)
 	// attributes that select other markup paths but have nothing to do with widths (alignment, links, colours): not part of the
 	// Model's input, so any influence on a width shows as a disagreement
 	Look string `json:"look,omitempty"`
@@ -180,6 +183,12 @@ func (l wLeaf) mjml(id string) string {
 	case "image":
 		return fmt.Sprintf(`<mj-image src="i.png" alt="leaf%s"%s%s%s/>`, id, l.E.padAttr(), l.E.borderAttr(), l.Look)
 	case "imagew":
+		switch l.Src {
+		case "class":
+			return fmt.Sprintf(`<mj-image src="i.png" alt="leaf%s" mj-class="kl%s"%s%s/>`, id, id, l.E.padAttr(), l.Look)
+		case "tag":
+			return fmt.Sprintf(`<mj-image src="i.png" alt="leaf%s"%s%s/>`, id, l.E.padAttr(), l.Look)
+		}
 		return fmt.Sprintf(`<mj-image src="i.png" alt="leaf%s" width="%dpx"%s%s/>`, id, l.W, l.E.padAttr(), l.Look)
 	case "carousel":
 		return fmt.Sprintf(`<mj-carousel thumbnails="hidden"><mj-carousel-image src="c.png" alt="leaf%s"/></mj-carousel>`, id)
@@ -245,13 +254,29 @@ func (d *wDoc) headFor() string {
 			fmt.Fprintf(&b, `<mj-column%s%s/>`, c.E.padAttr(), c.E.borderAttr())
 		}
 	}
+	addLeaf := func(l wLeaf, id string) {
+		if l.Kind != "imagew" {
+			return
+		}
+		switch l.Src {
+		case "class":
+			fmt.Fprintf(&b, `<mj-class name="kl%s" width="%dpx"/>`, id, l.W)
+		case "tag":
+			fmt.Fprintf(&b, `<mj-image width="%dpx"/>`, l.W)
+		}
+	}
 	for i, it := range d.Items {
 		if it.Col != nil {
 			add(*it.Col, strconv.Itoa(i))
+			addLeaf(it.Col.Leaf, strconv.Itoa(i))
 		}
 		for j, c := range it.Cols {
 			add(c, fmt.Sprintf("%d_%d", i, j))
+			addLeaf(c.Leaf, fmt.Sprintf("%d_%d", i, j))
 		}
+	}
+	for i, l := range d.Leaves {
+		addLeaf(l, fmt.Sprintf("h%d", i))
 	}
 	if b.Len() == 0 {
 		return ""
@@ -577,6 +602,9 @@ func genWLeaf(r *Rng) wLeaf {
 		l.Look = r.Pick(leafLooks[l.Kind])
 	case "imagew":
 		l.W = []int{40, 100, 250, 400, 900}[r.Intn(5)]
+		if r.Bool(1, 3) {
+			l.Src = "class"
+		}
 	case "carousel":
 	case "dividerp":
 		l.Look = r.Pick(leafLooks["divider"])
@@ -695,6 +723,18 @@ func widthDocs(tier string, seed int64) []*wDoc {
 		for _, lf := range []wLeaf{{Kind: "imagew", W: 100}, {Kind: "imagew", W: 900}, {Kind: "carousel"}, {Kind: "image", E: wEdges{Border: 3}}} {
 			docs = append(docs, &wDoc{Body: body, Hero: true, Sec: plain, Leaves: []wLeaf{lf}})
 			docs = append(docs, &wDoc{Body: body, Hero: true, Sec: wEdges{PadForm: "2", Pad: [4]int{0, 50, 0, 50}}, Leaves: []wLeaf{lf, {Kind: "divider"}}})
+		}
+	}
+	// an explicit image width from every source (the element, an mj-class, the mj-image default), below and above what the
+	// column leaves, in a full column, one of two columns, a padded column, a hero
+	for _, src := range []string{"", "class", "tag"} {
+		for _, w := range []int{100, 480, 900} {
+			lf := wLeaf{Kind: "imagew", W: w, Src: src}
+			e := wEdges{PadForm: "2", Pad: [4]int{0, 40, 0, 40}}
+			docs = append(docs, &wDoc{Body: 600, Sec: plain, Items: []wItem{{Col: &wCol{W: wWidth{Kind: "a"}, Leaf: lf}}}})
+			docs = append(docs, &wDoc{Body: 600, Sec: plain, Items: []wItem{{Col: &wCol{W: wWidth{Kind: "a"}, Leaf: lf}}, {Col: &wCol{W: wWidth{Kind: "a"}, Leaf: wLeaf{Kind: "text"}}}}})
+			docs = append(docs, &wDoc{Body: 600, Sec: plain, Items: []wItem{{Col: &wCol{W: wWidth{Kind: "a"}, E: e, Leaf: lf}}}})
+			docs = append(docs, &wDoc{Body: 600, Hero: true, Sec: e, Leaves: []wLeaf{lf}})
 		}
 	}
 	// dividers with a percentage width, whole and fractional: in a full column, a pixel-width column, a padded column, a padded
@@ -955,7 +995,7 @@ func checkWidthDoc(res *Result, drv *DriverPool, d *wDoc, html string, sample bo
 }
 
 func runC10(res *Result, tier string, seed int64, replay string) {
-	res.Rule = "lengths: strings made of what a length may be written with (digits, points, signs, units in both cases, exponents, ASCII and Unicode white space, border shorthands) through strings.Fields / styles.ParseHorizontalSpacing / ParsePixel / ParseBorderWidth vs the Lean Model Core/Lengths (driver `len`; plain decimals are inside the number grammar, anything else only must not crash); width documents: body width {600,500,480,640,700} × optional wrapper (boxed or full-width) × (section with 1–4 children: columns or groups of 1–3 columns; automatic / integer and fractional percentages / pixel widths | hero with images and dividers), every box with padding written in every form (absent, 1/2/3/4-value shorthand, per-side attributes alone and overriding a shorthand) and the lengths spelt in every way that means the same (20px, 20, 20.0px; values separated by a tab or two blanks, blanks around) and borders (all sides, border-left override); images and dividers without explicit width, dividers with a whole or fractional percentage width, with their own paddings (images also with their own border), images with an explicit width below and above what the column leaves, carousels; the column's padding / border written on the element, in an mj-class or as the mj-column default; first one feature at a time from a plain base (exhaustive list), then seeded combinations. Widths are scraped from the real output with the Lean lexer (wrapper / section max-width, Outlook td width per column and group, Outlook cells of columns inside groups, img width, divider Outlook table width) and compared (1) with the Model `Widths.impl` (driver `width`) exactly — the correspondence — and (2) with the Spec `Widths.spec` (driver `widthspec`, exact rationals): |Δ| < 1 px per rounding step, plus the sibling-sum clause. Non-trivial = padding/border/wrapper/hero/group somewhere or ≥2 columns; distinct by source"
+	res.Rule = "lengths: strings made of what a length may be written with (digits, points, signs, units in both cases, exponents, ASCII and Unicode white space, border shorthands) through strings.Fields / styles.ParseHorizontalSpacing / ParsePixel / ParseBorderWidth vs the Lean Model Core/Lengths (driver `len`; plain decimals are inside the number grammar, anything else only must not crash); width documents: body width {600,500,480,640,700} × optional wrapper (boxed or full-width) × (section with 1–4 children: columns or groups of 1–3 columns; automatic / integer and fractional percentages / pixel widths | hero with images and dividers), every box with padding written in every form (absent, 1/2/3/4-value shorthand, per-side attributes alone and overriding a shorthand) and the lengths spelt in every way that means the same (20px, 20, 20.0px; values separated by a tab or two blanks, blanks around) and borders (all sides, border-left override); images and dividers without explicit width, dividers with a whole or fractional percentage width, with their own paddings (images also with their own border), images with an explicit width below and above what the column leaves (written on the element, in an mj-class, as the mj-image default), carousels; the column's padding / border written on the element, in an mj-class or as the mj-column default; first one feature at a time from a plain base (exhaustive list), then seeded combinations. Widths are scraped from the real output with the Lean lexer (wrapper / section max-width, Outlook td width per column and group, Outlook cells of columns inside groups, img width, divider Outlook table width) and compared (1) with the Model `Widths.impl` (driver `width`) exactly — the correspondence — and (2) with the Spec `Widths.spec` (driver `widthspec`, exact rationals): |Δ| < 1 px per rounding step, plus the sibling-sum clause. Non-trivial = padding/border/wrapper/hero/group somewhere or ≥2 columns; distinct by source"
 	drv, err := startDriverPool(8)
 	if err != nil {
 		res.Disagree(Violation{Sig: "driver-missing", What: err.Error()})
